@@ -21,10 +21,13 @@
 (*                                 are added (get_binned_counts with user regions, D15): double     *)
 (*                                 counts. (With dict.update the doubled cell would be overwritten,  *)
 (*                                 which hides the double count while one record is involved.)      *)
+(*   Variant = "impl_plain_update" obtain_counts merges with counts.update(result): a bin reported by   *)
+(*                                 several jobs (several BAMs of different cells) keeps only the     *)
+(*                                 cells of the job merged last (seeded change C12-r2m1)             *)
 (*   Variant = "impl_no_precond"   records whose site is farther than mfs from the alignment are    *)
 (*                                 admitted: shows that the precondition is necessary               *)
 (*                                                                                                 *)
-(* record r: contig, site, rstart, rend (half open alignment), sample, r1, dup, qcfail : BOOLEAN,    *)
+(* record r: file (index of the BAM in the list given to generate_commands), contig, site, rstart, rend (half open alignment), sample, r1, dup, qcfail : BOOLEAN,    *)
 (*           mapq, mp ("" = no mp tag), key (value of the key tag, "" = no key tags in use)          *)
 (* config c: bin, bpj, mfs, minmq, dedup, kwargs \in {"none","empty"}, usekey : BOOLEAN              *)
 EXTENDS Integers, Sequences, FiniteSets, TLC, Util, Json
@@ -34,7 +37,8 @@ CONSTANTS Variant,
           BinSizes, Bpjs, Mfss,   \* sets of bin sizes, bins-per-job and max fragment sizes
           KindSet,       \* which kinds of records (see MkRec) the BAM of the bounded model may hold
           KwargsSet, UseKeySet,   \* values of the kwargs / key_tags arguments explored
-          MaxRecs,       \* number of records in the BAM
+          NFiles,        \* number of BAM files handed to generate_commands as a list (cells of different files are disjoint)
+          MaxRecs,       \* number of records in the BAM(s)
           Threads        \* size of the worker pool: at most this many finished-but-unmerged results
 
 ContigNames == << "a", "b" >>
@@ -60,16 +64,20 @@ ExpectedMatrixOver(recs, c, lenOf(_)) ==
         cells == { CellOf(q[k], c, lenOf(q[k].contig)) : k \in DOMAIN q }
     IN [cell \in cells |-> Cardinality({ k \in DOMAIN q : CellOf(q[k], c, lenOf(q[k].contig)) = cell })]
 ExpectedTotalOver(recs, c) == Len(SelectSeq(recs, LAMBDA r : Qualifies(r, c)))
+(* several BAMs: the statement speaks of "the BAM"; the union of several libraries is well defined as long as no cell
+   occurs in two of them (the per-bin merge of obtain_counts is per cell) *)
+CellsDisjoint(rs) == \A a, b \in DOMAIN rs : rs[a].sample = rs[b].sample => rs[a].file = rs[b].file
 
 ---------------------------------------------------------------------------------------------------
 (* D-level *)
 JobWidth(c) == c.bin * c.bpj
 JobStarts(c, cn) == { k * JobWidth(c) : k \in 0 .. ((LenOf(cn) - 1) \div JobWidth(c)) }       \* range(0, length, width)
-Jobs(c) == UNION { { [contig |-> cn, start |-> st, end |-> st + JobWidth(c)] : st \in JobStarts(c, cn) } : cn \in Contigs }
+Jobs(c) == UNION { { [file |-> f, contig |-> cn, start |-> st, end |-> st + JobWidth(c)] : st \in JobStarts(c, cn) } :
+                     cn \in Contigs, f \in 1 .. NFiles }                  \* for alignments_path in iterfiles: for job in ...
 
 FetchStart(j, c) == IF j.start - c.mfs > 0 THEN j.start - c.mfs ELSE 0
 FetchEnd(j, c)   == IF j["end"] + c.mfs < LenOf(j.contig) THEN j["end"] + c.mfs ELSE LenOf(j.contig)
-Fetched(recs, j, c) == SelectSeq(recs, LAMBDA r : r.contig = j.contig /\ r.rstart < FetchEnd(j, c) /\ r.rend > FetchStart(j, c))
+Fetched(recs, j, c) == SelectSeq(recs, LAMBDA r : r.file = j.file /\ r.contig = j.contig /\ r.rstart < FetchEnd(j, c) /\ r.rend > FetchStart(j, c))
 
 (* read_counts(read, min_mq, dedup, read1_only=True, ignore_mp=False) in code order *)
 ReadCounts(r, c) ==
@@ -105,6 +113,7 @@ MergeInto(cnt, res) ==
     [bid \in DOMAIN cnt \cup DOMAIN res |->
         IF bid \notin DOMAIN res THEN cnt[bid]
         ELSE IF bid \notin DOMAIN cnt THEN res[bid]
+        ELSE IF Variant = "impl_plain_update" THEN res[bid]              \* counts.update(result)
         ELSE IF Variant = "impl_own_fetch"      \* get_binned_counts merges with Counter addition: cut_counts[k] += v
              THEN [s \in DOMAIN cnt[bid] \cup DOMAIN res[bid] |->
                       (IF s \in DOMAIN res[bid] THEN res[bid][s] ELSE 0) + (IF s \in DOMAIN cnt[bid] THEN cnt[bid][s] ELSE 0)]
@@ -121,17 +130,18 @@ SerialResult(recs, c) ==
 ---------------------------------------------------------------------------------------------------
 (* record universe of the bounded model: sites everywhere, alignments at the extreme offsets *)
 Kinds == { "good", "dup", "qcfail", "notr1", "lowmq", "mp_multi", "good_s2", "good_k2", "mp_unique" }
-MkRec(cn, site, rstart, kind) ==
-    [contig |-> cn, site |-> site, rstart |-> rstart, rend |-> rstart + 2,
-     sample |-> IF kind = "good_s2" THEN "s2" ELSE "s1", r1 |-> kind # "notr1", dup |-> kind = "dup",
+SampleOf(kind, f) == (IF kind = "good_s2" THEN "s2" ELSE "s1") \o (IF f = 1 THEN "" ELSE "_lib" \o ToString(f))
+MkRec(cn, site, rstart, kind, f) ==
+    [file |-> f, contig |-> cn, site |-> site, rstart |-> rstart, rend |-> rstart + 2,
+     sample |-> SampleOf(kind, f), r1 |-> kind # "notr1", dup |-> kind = "dup",
      qcfail |-> kind = "qcfail", mapq |-> IF kind = "lowmq" THEN 49 ELSE 50,
      mp |-> IF kind = "mp_multi" THEN "multi" ELSE IF kind = "mp_unique" THEN "unique" ELSE "",
      key |-> IF kind = "good_k2" THEN "k2" ELSE "k1"]
 Offsets(mfs) == IF Variant = "impl_no_precond" THEN { -mfs - 3, -mfs - 2, 0, mfs + 1, mfs + 2 }
                 ELSE { -mfs - 1, 0, mfs }      \* rstart - site: alignment ends mfs before / starts mfs after the site
 MaxLen == MaxOf(SeqSet(ContigLens))
-RecU(c) == { r \in { MkRec(cn, site, site + off, kind) :
-                       cn \in Contigs, site \in 0 .. (MaxLen - 1), off \in Offsets(c.mfs), kind \in KindSet } :
+RecU(c) == { r \in { MkRec(cn, site, site + off, kind, f) :
+                       cn \in Contigs, site \in 0 .. (MaxLen - 1), off \in Offsets(c.mfs), kind \in KindSet, f \in 1 .. NFiles } :
                r.site < LenOf(r.contig) /\ r.rstart >= 0 /\ r.rend <= LenOf(r.contig) }
 
 Configs == [bin : BinSizes, bpj : Bpjs, mfs : Mfss, minmq : {50}, dedup : {TRUE}, kwargs : KwargsSet, usekey : UseKeySet]
@@ -175,7 +185,7 @@ Spec == Init /\ [][Next]_vars
 
 ---------------------------------------------------------------------------------------------------
 (* Properties *)
-AllInPre == Variant = "impl_no_precond" \/ \A k \in DOMAIN recs : Qualifies(recs[k], cfg) => InPrecondition(recs[k], cfg, LenOf(recs[k].contig))
+AllInPre == CellsDisjoint(recs) /\ (Variant = "impl_no_precond" \/ \A k \in DOMAIN recs : Qualifies(recs[k], cfg) => InPrecondition(recs[k], cfg, LenOf(recs[k].contig)))
 
 (* a job function must not raise on a legal configuration *)
 Inv_C12_Total_NoRaise == status # "raised"
@@ -194,9 +204,10 @@ Inv_D_Partial == AllInPre =>
     LET m == Flatten(counts) e == ExpectedMatrixOver(recs, cfg, LenOf)
     IN \A cell \in DOMAIN m : cell \in DOMAIN e /\ m[cell] <= e[cell]
 
-(* why dict.update is harmless for one BAM: a bin id is produced by exactly one job *)
+(* within one BAM a bin id is produced by exactly one job; jobs of different BAMs do share bin ids, which is why the
+   merge has to be per bin id AND per cell *)
 Inv_D_BinHasOneJob ==
-    \A j1, j2 \in DOMAIN results : j1 # j2 => DOMAIN results[j1] \cap DOMAIN results[j2] = {}
+    \A j1, j2 \in DOMAIN results : (j1 # j2 /\ j1.file = j2.file) => DOMAIN results[j1] \cap DOMAIN results[j2] = {}
 
 (* scenario generator (spec -> code): every initial state of the bounded model is a test case *)
 Emit == IF pending = Jobs(cfg) /\ results = <<>>
